@@ -41,6 +41,7 @@ class Side:
         params = [a.arg for a in fn.args.args if a.arg != "self"]
         self.obj, self.ctx = params[0], params[1]
         self.env = {}
+        self.assign_order = []
         self.asserts = []
         self.ret = None
         for st in body_of(fn):
@@ -51,6 +52,7 @@ class Side:
                 if not isinstance(t, ast.Name):
                     raise TranslatorGap("assignment target is not a name")
                 self.env[t.id] = st.value
+                self.assign_order.append(t.id)
             elif isinstance(st, ast.Return):
                 self.ret = st.value
             elif isinstance(st, ast.If) and not st.orelse and all(
@@ -229,14 +231,25 @@ def translate_file(path, kind):
             raise TranslatorGap(f"{cname}._decode returns {ast.unparse(d.ret.func)}, registered for {mname}")
         if not (isinstance(e.ret.func, ast.Name) and e.ret.func.id == rec_cls):
             raise TranslatorGap(f"{cname}._encode does not return {rec_cls}")
+        def eval_key(side, pos, value):
+            # expressions bound to local variables are evaluated first, in statement order
+            if isinstance(value, ast.Name) and value.id in side.assign_order:
+                return side.assign_order.index(value.id)
+            return 1000 + pos
+
         dec = []
-        for kw in d.ret.keywords:
+        dec_keys = []
+        for pos, kw in enumerate(d.ret.keywords):
             codec, prop = d.classify_decode(kw.value)
             f = rec_props.get(prop)
             if f is None:
                 raise TranslatorGap(f"{rec_cls}.{prop} is not a plain field property")
             dec.append({"arg": kw.arg, "codec": codec, "field": f})
+            dec_keys.append((eval_key(d, pos, kw.value), kw.arg))
         enc = []
+        enc_keys = []
+        for pos, kw in enumerate(e.ret.keywords):
+            enc_keys.append((eval_key(e, pos, kw.value), kw.arg))
         for kw in e.ret.keywords:
             codec, prop = e.classify_encode(kw.value)
             arg = None
@@ -253,6 +266,8 @@ def translate_file(path, kind):
             "decode": dec, "encode": enc,
             "asserts_type": want in d.asserts,
             "rich_fields": [n for n, _ in dataclass_fields(mm, mc)],
+            "dec_order": [a for _, a in sorted(dec_keys)],
+            "enc_order": [a for _, a in sorted(enc_keys)],
             "file": os.path.relpath(path, PKG_ROOT),
         })
     return rows
@@ -319,7 +334,11 @@ def generate(gen_dir, build_dir, write_if_changed):
 
         dec = ", ".join(f"⟨{lean_str(d['arg'])}, {lean_str(split(d['codec'])[0])}, {lean_str(split(d['codec'])[1])}, {lean_str(d['field'])}⟩" for d in r["decode"])
         enc = ", ".join(f"⟨{lean_str(e['field'])}, {lean_str(split(e['codec'])[0])}, {lean_str(e['arg'] or '')}⟩" for e in r["encode"])
-        return f"  ⟨{r['id']}, {lean_str(r['model'])}, {lean_str(r['member'])}, [{dec}], [{enc}], {'true' if r['asserts_type'] else 'false'}⟩"
+        def sl(xs):
+            return "[" + ", ".join(lean_str(x) for x in xs) + "]"
+
+        return (f"  ⟨{r['id']}, {lean_str(r['model'])}, {lean_str(r['member'])}, [{dec}], [{enc}], {'true' if r['asserts_type'] else 'false'}, "
+                f"{sl(r['rich_fields'])}, {sl(r['dec_order'])}, {sl(r['enc_order'])}⟩")
 
     for kind, name in (("action", "actionTable"), ("condition", "conditionTable")):
         L.append("")
